@@ -328,6 +328,8 @@ class Path:
             raise Unsupported("== on opaque values")
         if isinstance(a, Opaque) or isinstance(b, Opaque):
             o, other = (a, b) if isinstance(a, Opaque) else (b, a)
+            if isinstance(other, (list, tuple, dict, str, int, bool, SStr, SInt, SBool)) and not str(o.tag).startswith("lenient:"):
+                return False
             hook = self.ex.opaque_eq
             if hook:
                 return hook(self, o, other)
@@ -1758,8 +1760,6 @@ class Path:
                 return models.call_method(self, recv, e.func.attr, args, kwargs)
             f = self.getattr(recv, e.func.attr)
             return self.call(f, args, kwargs)
-        if isinstance(e.func, ast.Name) and e.func.id == "super":
-            raise Unsupported("bare super()")
         f = self.eval(e.func)
         # super().method(...) pattern
         args, kwargs = self.eval_args(e)
